@@ -106,6 +106,7 @@ def root_dir(base: Path, i: int) -> Path:
 def materialise(case, base: Path):
     """Write the layout below `base` and return {absolute dir path: [names in case order]}."""
     order = {}
+    links = []
 
     def rec(path: Path, listing):
         path.mkdir(parents=True, exist_ok=True)
@@ -114,6 +115,8 @@ def materialise(case, base: Path):
             p = path / name
             if node[0] == "d":
                 rec(p, node[1])
+            elif node[0] == "l":
+                links.append((p, node[1]))        # ["l", relative target]: a symbolic link, created once everything exists
             else:
                 _, ns, pth = node
                 if name.endswith(".pth"):
@@ -134,6 +137,8 @@ def materialise(case, base: Path):
 
     for i, listing in case["dirs"]:
         rec(root_dir(base, i), listing)
+    for p, target in links:
+        os.symlink(target, p)
     return order
 
 
@@ -442,14 +447,35 @@ def abstract_case(case):
     return [[[i, [[n, node(n, x)] for n, x in l]] for i, l in case["dirs"]], case["search"], case["name"]]
 
 
+def case_node_at(case, base: Path, path: Path):
+    """the node of the case at an absolute (normalised) path below base, or None"""
+    try:
+        parts = Path(os.path.normpath(path)).relative_to(base).parts
+    except ValueError:
+        return None
+    if not parts:
+        return None
+    cur = next((["d", l] for i, l in case["dirs"] if f"d{i}" == parts[0]), None)
+    for c in parts[1:]:
+        if cur is None or cur[0] != "d":
+            return None
+        cur = next((x for n, x in cur[1] if n == c), None)
+    return cur
+
+
 def order_map(case, base: Path):
     om = {}
 
-    def rec(p, l):
+    def rec(p, l, depth=0):
         om[str(p)] = [n for n, _ in l]
         for n, x in l:
             if x[0] == "d":
-                rec(p / n, x[1])
+                rec(p / n, x[1], depth)
+            elif x[0] == "l" and depth < 3:
+                # the listing of a linked directory, under the link's own path (os.walk(followlinks=True) lists it there)
+                t = case_node_at(case, base, p / x[1])
+                if t is not None and t[0] == "d":
+                    rec(p / n, t[1], depth + 1)
     for i, l in case["dirs"]:
         rec(root_dir(base, i), l)
     return om
@@ -1302,6 +1328,237 @@ def history_stream(ctx, n_layouts, model, tag, stream="one-loader-history"):
 
 
 # ---------------------------------------------------------------------------------------------------------------
+# Symbolic links inside packages (not in the model: Griffe vs CPython, and Griffe vs Griffe across listing orders)
+# ---------------------------------------------------------------------------------------------------------------
+def _has_link(node):
+    return node[0] == "l" or (node[0] == "d" and any(_has_link(x) for _, x in node[1]))
+
+
+def add_symlinks(rng, case, how_many):
+    """Add directory / file links inside the package trees: to a sibling, or to a sibling of a parent (never to an
+    ancestor: no cycles).  Returns the number of links added."""
+    spots = []          # (root id, path components of a directory below the root, its listing)
+
+    def rec(i, comps, listing):
+        if comps and comps[-1] == "__pycache__":
+            return
+        if comps:
+            spots.append((i, comps, listing))
+        for n, x in listing:
+            if x[0] == "d":
+                rec(i, comps + [n], x[1])
+    for i, l in case["dirs"]:
+        rec(i, [], [e for e in l if e[0] == case["name"]])
+    added = 0
+    for _ in range(how_many * 4):
+        if added >= how_many or not spots:
+            break
+        i, comps, listing = rng.choice(spots)
+        j, tcomps, tlisting = rng.choice(spots)
+        cands = [(n, x) for n, x in tlisting if not _has_link(x) and n != "__pycache__" and not n.endswith(".pth")
+                 and (x[0] == "d" or n.endswith((".py", ".pyi")))]
+        if not cands:
+            continue
+        tn, tx = rng.choice(cands)
+        tpath = tcomps + [tn]
+        if (i, comps[:len(tpath)]) == (j, tpath):          # the target contains the place of the link: a cycle
+            continue
+        if tx[0] == "d":
+            name = rng.choice(["compat", "alias", "legacy", "zz_link", "a_link"])
+        else:
+            name = rng.choice(["compat", "alias", "zz_link"]) + (".pyi" if tn.endswith(".pyi") else ".py")
+        if any(n == name for n, _ in listing) or (tx[0] == "f" and tn.startswith("__init__")):
+            continue
+        target = os.path.relpath(os.path.join(f"d{j}", *tpath), os.path.join(f"d{i}", *comps))
+        listing.append([name, ["l", target]])
+        rng.shuffle(listing)
+        added += 1
+    return added
+
+
+def symlink_targeted():
+    mk = lambda dirs, search: {"dirs": [[i, l] for i, l in enumerate(dirs)], "search": search, "name": TOP}
+    return [
+        mk([[["aa", _pkg(["core", _pkg(["a.py", F()], ["deep", _pkg(["x.py", F()])])], ["compat", ["l", "core"]], ["m.py", F()])]]], [0]),
+        mk([[["aa", _pkg(["zcore", _pkg(["a.py", F()])], ["alias", ["l", "zcore"]], ["m.py", F()], ["mm.py", ["l", "m.py"]])]]], [0]),
+        mk([[["aa", _pkg(["sub", _pkg(["inner", ["l", "../shared"]], ["b.py", F()])], ["shared", _pkg(["s.py", F()])])]]], [0]),
+        mk([[["aa", D([["sub", D([["a.py", F()]])]])]], [["aa", D([["sub2", ["l", "../../d0/aa/sub"]], ["n.py", F()]])]]], [0, 1]),
+        mk([[["aa", _pkg(["noinit", D([["y.py", F()]])], ["lnk", ["l", "noinit"]], ["data", ["l", "m.py"]], ["m.py", F()])]]], [0]),
+    ]
+
+
+def symlink_stream(ctx, n_cases, tag="lnk"):
+    cases = symlink_targeted()
+    while len(cases) < n_cases + len(symlink_targeted()):
+        c = gen_ns_case(ctx.rng) if ctx.rng.random() < 0.3 else gen_case(ctx.rng, allow_pth=False)
+        if add_symlinks(ctx.rng, c, ctx.rng.choice([1, 1, 2])):
+            cases.append(c)
+    for start in range(0, len(cases), 100):
+        scratch = ctx.scratch / f"{tag}{start}"
+        reps = evaluate_no_model(cases[start:start + 100], scratch, ctx.rng)
+        for rep in reps:
+            ctx.case(rep["case"], count_nodes(rep["case"]) >= 4)
+            ctx.observe("stream", "symlinks")
+            first = rep["perms"][0]
+            ctx.observe("symlink_load", first["load"][0] + (":" + first["load"][1] if first["load"][0] == "err" else ""))
+            report_direct(ctx, rep, py_gaps(rep["case"]))
+        subprocess.run(["rm", "-rf", str(scratch)])
+
+
+# ---------------------------------------------------------------------------------------------------------------
+# Histories inside ONE process: several loaders, different options (allow_inspection, find_stubs_package), the same
+# name requested more than once -- every tree against the tree of the same single request in a fresh process
+# ---------------------------------------------------------------------------------------------------------------
+def gen_process_layout(rng):
+    def pkg_listing(depth=1):
+        es = [["__init__.py", F()], ["m.py", F()]]
+        es.append([rng.choice(["fast", "n"]) + rng.choice([".pyc", ".pyc", EXT_SUFFIX, ".so"]), F()])
+        if rng.random() < 0.5:
+            es.append(["m.pyi", F()])
+        if depth < 2 and rng.random() < 0.7:
+            es.append(["sub", D(pkg_listing(depth + 1))])
+        if rng.random() < 0.3:
+            es.append(["noinit", D([["y.py", F()]])])
+        rng.shuffle(es)
+        return es
+    d0 = [["aa", D(pkg_listing())], ["bb", D([["a.py", F()], ["speed.pyc", F()]])]]
+    d1 = [["bb", D([["b.py", F()]])]]
+    if rng.random() < 0.85:
+        where = rng.choice([d0, d1])
+        where.append(["aa-stubs", D([["__init__.pyi", F()], ["extra.pyi", F()]] + ([["m.pyi", F()]] if rng.random() < 0.5 else []))])
+    if rng.random() < 0.7:
+        rng.choice([d0, d1]).append(["bb-stubs", D([["c.pyi", F()]] + ([["a.pyi", F()]] if rng.random() < 0.5 else []))])
+    if rng.random() < 0.5:
+        d1.append(["cc", D([["__init__.py", F()], ["k.pyc", F()], ["k2.py", F()]])])
+    return {"dirs": [[0, d0], [1, d1]], "search": [0, 1], "name": "aa"}
+
+
+def gen_history(rng):
+    nload = rng.choice([1, 2, 2, 3])
+    loaders = [{"allow_inspection": rng.random() < 0.5} for _ in range(nload)]
+    if nload > 1 and all(l["allow_inspection"] for l in loaders):
+        loaders[0]["allow_inspection"] = False
+    steps = []
+    for _ in range(rng.randint(2, 5)):
+        steps.append({"loader": rng.randrange(nload), "name": rng.choice(["aa", "aa", "bb", "bb", "cc"]), "stubs": rng.random() < 0.45})
+    return {"loaders": loaders, "steps": steps}
+
+
+def _run_step(loaders, cache, step, base, search):
+    import griffe
+    k = step["loader"]
+    if k not in cache:
+        cache[k] = griffe.GriffeLoader(search_paths=search, allow_inspection=loaders[k]["allow_inspection"])
+    try:
+        top = cache[k].load(step["name"], try_relative_path=False, find_stubs_package=step["stubs"])
+        while top.parent is not None:
+            top = top.parent
+        return ["ok", tree_of(top, base)]
+    except ModuleNotFoundError:
+        return ["notfound"]
+    except Exception as e:  # noqa: BLE001
+        return ["err", type(e).__name__]
+
+
+def _in_child(fn):
+    """run fn() in a forked child (its own process state) and return its JSON-able result"""
+    r, w = os.pipe()
+    pid = os.fork()
+    if pid == 0:
+        try:
+            os.close(r)
+            signal.alarm(60)
+            try:
+                out = fn()
+            except BaseException as e:  # noqa: BLE001
+                out = ["child-error", type(e).__name__ + ": " + str(e)[:200]]
+            with os.fdopen(w, "w") as fh:
+                json.dump(out, fh)
+        finally:
+            os._exit(0)
+    os.close(w)
+    with os.fdopen(r) as fh:
+        data = fh.read()
+    os.waitpid(pid, 0)
+    return json.loads(data) if data else ["child-error", "no output"]
+
+
+def history_worker():
+    """Subprocess entry point (python -c): the parent only imports griffe; every history runs in ONE forked child, every
+    single request of it again in a child of its own (the 'fresh process')."""
+    import logging
+    import griffe  # noqa: F401
+    logging.getLogger("griffe").setLevel(logging.CRITICAL)
+    jobs = json.load(sys.stdin)
+    out = []
+    for job in jobs:
+        base = Path(job["base"])
+        search = [str(root_dir(base, i)) for i in job["search"]]
+        hist = job["history"]
+
+        def whole():
+            cache = {}
+            with listing_order(job["order"]):
+                return [_run_step(hist["loaders"], cache, st, base, search) for st in hist["steps"]]
+
+        def single(st):
+            def run():
+                with listing_order(job["order"]):
+                    return _run_step(hist["loaders"], {}, st, base, search)
+            return run
+        out.append({"history": _in_child(whole), "fresh": [_in_child(single(st)) for st in hist["steps"]]})
+    json.dump(out, sys.stdout)
+
+
+def process_history_stream(ctx, n_layouts, tag="proc"):
+    from harness.common import framework
+    scratch = ctx.scratch / tag
+    scratch.mkdir(parents=True, exist_ok=True)
+    jobs, meta = [], []
+    fixed = [
+        # m10-like: the option first, then the plain request, on one loader; m11-like: a static-only loader first, then a default one
+        {"loaders": [{"allow_inspection": False}], "steps": [{"loader": 0, "name": "aa", "stubs": True}, {"loader": 0, "name": "aa", "stubs": False},
+                                                             {"loader": 0, "name": "bb", "stubs": True}, {"loader": 0, "name": "bb", "stubs": True},
+                                                             {"loader": 0, "name": "bb", "stubs": False}]},
+        {"loaders": [{"allow_inspection": False}, {"allow_inspection": True}],
+         "steps": [{"loader": 0, "name": "bb", "stubs": False}, {"loader": 1, "name": "aa", "stubs": False}, {"loader": 1, "name": "bb", "stubs": False}]},
+        {"loaders": [{"allow_inspection": True}, {"allow_inspection": False}],
+         "steps": [{"loader": 0, "name": "aa", "stubs": True}, {"loader": 1, "name": "aa", "stubs": False}, {"loader": 0, "name": "aa", "stubs": False}]},
+    ]
+    for k in range(n_layouts):
+        layout = gen_process_layout(ctx.rng)
+        base = scratch / f"p{k}"
+        materialise(layout, base)
+        for h in ([fixed[k % len(fixed)]] if k < 2 * len(fixed) else []) + [gen_history(ctx.rng) for _ in range(2)]:
+            jobs.append({"base": str(base), "search": layout["search"], "order": order_map(layout, base), "history": h})
+            meta.append((layout, h))
+    env = {k: v for k, v in os.environ.items()}
+    env["PYTHONPATH"] = f"{framework.REPO}/src:{framework.VERIF}"
+    env["PYTHONDONTWRITEBYTECODE"] = "1"
+    p = subprocess.run([sys.executable, "-c", "from harness.props.c14 import history_worker; history_worker()"], input=json.dumps(jobs),
+                       capture_output=True, text=True, timeout=1500, env=env, cwd=str(framework.VERIF))
+    if p.returncode != 0:
+        ctx.tie_failure("harness", "process-history worker", p.stderr[-800:], None)
+        return
+    for (layout, h), res in zip(meta, json.loads(p.stdout)):
+        ctx.case({"layout": layout, "history": h}, True)
+        ctx.observe("stream", "process-history")
+        ctx.observe("history_loaders", len(h["loaders"]))
+        got, fresh = res["history"], res["fresh"]
+        if not isinstance(got, list) or len(got) != len(h["steps"]) or (got and got[0] == "child-error"):
+            ctx.tie_failure("harness", "process-history child", got, layout)
+            continue
+        for pos, (st, a, b) in enumerate(zip(h["steps"], got, fresh)):
+            insp = h["loaders"][st["loader"]]["allow_inspection"]
+            ctx.observe("process_history_step", f"{'inspect' if insp else 'static'}:{'stubs' if st['stubs'] else 'plain'}:{a[0]}")
+            if a != b:
+                ctx.property_failure({"case": {**layout, "name": st["name"]}, "check": "process-history", "history": h, "position": pos},
+                                     {"request": st, "loader_options": h["loaders"][st["loader"]], "position": pos,
+                                      "in_the_history": a, "alone_in_a_fresh_process": b}, finding=None)
+    subprocess.run(["rm", "-rf", str(scratch)])
+
+
+# ---------------------------------------------------------------------------------------------------------------
 # The check
 # ---------------------------------------------------------------------------------------------------------------
 LEVEL_TEXT = ("Coq theorems (20, all closed under the global context) over an executable model of finder.py / loader.py discovery, for all layouts, search-path lists "
@@ -1333,7 +1590,7 @@ RULE = ("targeted layouts (witnesses of all eleven findings, every precedence de
         "family (subsets of m.py/m.pyi/m.so/m.pyc/m/ with and without __init__, every permutation of the package listing); seeded random layouts over 1-3 search paths + .pth-added paths "
         "(regular/namespace/stub/pkgutil-style/module/compiled top-level forms, nested packages to depth 4, junk, __pycache__, dotted file names, dot-files, directories with dotted names at "
         "every level holding modules and sub-packages, .pth lines absolute / relative to the .pth file / relative to the cwd / comments / missing); seeded namespace-heavy layouts (2-3 portions "
-        "with overlapping sub-directories: about half of them have the F8/F3/F10 shapes in the raw scan); pkgutil / pkg_resources-style namespace __init__ files with realistic text (docstring, licence header, coding cookie, imports before the declaration, both quote styles, the import forms, the try/except template; 49 variants); layouts with 2-3 top-level packages sharing folder names in different roles, each checked on its own AND loaded with ONE GriffeLoader in several orders (every tree must be the fresh loader's). Each layout is run under its own, the sorted, the reversed and random listing orders, "
+        "with overlapping sub-directories: about half of them have the F8/F3/F10 shapes in the raw scan); pkgutil / pkg_resources-style namespace __init__ files with realistic text (docstring, licence header, coding cookie, imports before the declaration, both quote styles, the import forms, the try/except template; 49 variants); layouts with 2-3 top-level packages sharing folder names in different roles, each checked on its own AND loaded with ONE GriffeLoader in several orders (every tree must be the fresh loader's); histories inside one process (several GriffeLoaders with allow_inspection on/off, find_stubs_package on/off with -stubs distributions present, compiled modules, the same name requested repeatedly), run in a forked child of a worker subprocess, every tree against the tree of the same single request in a fresh forked process; layouts with directory and file symbolic links inside the packages (to siblings, to siblings of parents, across portions; never to an ancestor), Griffe vs CPython's import/walk under all listing orders. Each layout is run under its own, the sorted, the reversed and random listing orders, "
         "and loaded by up to 10 paths (top-level directories in and outside the search directories, __init__ files, nested directories and files, a missing path). "
         "non-trivial = at least 4 file-system nodes; distinct by canonical layout")
 TRUSTED = ["translator harness/translate/c14_tables.py (constants and loop shapes of finder.py / loader.py -> coq/Gen/C14_tables.v; the rest of the model is hand-written and tied by differential runs)",
@@ -1348,6 +1605,7 @@ ASSUMPTIONS = ["allow_inspection=False; files are empty (or a pkgutil namespace 
                "a file called exactly '.pth' is outside the domain (site of CPython 3.12.1 reads it, pathlib gives it no suffix; newer CPythons skip hidden .pth files): generated, counted as scope",
                "the portions of a namespace package are distinct directories; search directories are not nested in one another",
                "the oracle runs python -S without setuptools: pkg_resources.declare_namespace is emulated there by pkgutil.extend_path (a stub module next to the oracle script)",
+               "the process-history and symlink streams are direct checks (implementation vs itself in a fresh process / vs CPython): loader state, options and links are not in the Coq model",
                "pkg-style namespace declarations are generated in seven spellings (__import__('pkgutil'/'pkg_resources') with either quote, from pkgutil import extend_path, "
                "import pkgutil, import pkg_resources); other ways of extending __path__ are outside the generated domain"]
 
@@ -1519,6 +1777,8 @@ def explore(ctx):
         subprocess.run(["rm", "-rf", str(ctx.scratch / f"ns{k}")])
         k += 1
     history_stream(ctx, ctx.budget(40, 400), model, "hist")
+    symlink_stream(ctx, ctx.budget(60, 600))
+    process_history_stream(ctx, ctx.budget(24, 240))
     if not ctx.quick:
         sample = []
         for c in targeted_cases()[:20]:
@@ -1536,6 +1796,12 @@ def search(ctx):
     for _ in range(4):
         batches.append([gen_case(ctx.rng) for _ in range(150)] + [gen_ns_case(ctx.rng) for _ in range(100)])
     history_stream(ctx, 60, None, "shist")
+    if ctx.prop_failures:
+        return
+    symlink_stream(ctx, 80, "slnk")
+    if ctx.prop_failures:
+        return
+    process_history_stream(ctx, 24, "sproc")
     if ctx.prop_failures:
         return
     for k, cases in enumerate(batches):
@@ -1580,6 +1846,23 @@ def replay(ctx, data):
             print(f"model [{p['label']}] load:", json.dumps(p["m_load"]))
     print("cpython:", json.dumps({k: rep["oracle"].get(k) for k in ("paths", "find", "walk", "queries")}))
     print("gaps   :", rep["m_gaps"] if model else py_gaps(case))
+    if isinstance(fi, dict) and fi.get("history"):
+        from harness.common import framework
+        h = fi["history"]
+        job = [{"base": str(rep["base"]), "search": case["search"], "order": order_map(case, rep["base"]), "history": h}]
+        env = dict(os.environ, PYTHONPATH=f"{framework.REPO}/src:{framework.VERIF}", PYTHONDONTWRITEBYTECODE="1")
+        pr = subprocess.run([sys.executable, "-c", "from harness.props.c14 import history_worker; history_worker()"], input=json.dumps(job),
+                            capture_output=True, text=True, timeout=300, env=env, cwd=str(framework.VERIF))
+        print("history in one process:", json.dumps(h))
+        if pr.returncode == 0:
+            res = json.loads(pr.stdout)[0]
+            for pos, (st, a, b) in enumerate(zip(h["steps"], res["history"], res["fresh"])):
+                print(f"  step {pos} {st} loader options {h['loaders'][st['loader']]}: {'same as alone in a fresh process' if a == b else 'DIFFERS'}")
+                if a != b:
+                    print("    in the history    :", json.dumps(a)[:1500])
+                    print("    alone, fresh proc :", json.dumps(b)[:1500])
+        else:
+            print("worker failed:", pr.stderr[-500:])
     if isinstance(fi, dict) and fi.get("loaded_in_order"):
         names = fi["loaded_in_order"]
         print("one loader, packages loaded in the order", names)
